@@ -184,7 +184,10 @@ where
             Ok(r) => r,
             Err(_) => {
                 let (loc, msg) = take_panic().unwrap_or(("?".into(), "?".into()));
-                CaseReport { fail: Some(Fail::new("harness|panic", format!("harness code panicked at {}: {}", loc, msg))), evaluations: 1, ..CaseReport::default() }
+                match crate::lockwatch::classify(&msg) {
+                    Some((key, detail)) => CaseReport { fail: Some(Fail::new(key, detail)), evaluations: 1, ..CaseReport::default() },
+                    None => CaseReport { fail: Some(Fail::new("harness|panic", format!("harness code panicked at {}: {}", loc, msg))), evaluations: 1, ..CaseReport::default() },
+                }
             }
         };
         let mut s = st.borrow_mut();
